@@ -163,12 +163,24 @@ def make (spec0):
         a1 = float (ro.choice ([30.0, 10.0, -170.0, 0.0, float (np.round (ro.uniform (-360, 360), 1))]))
         sw = float (ro.choice ([300.0, 340.0, 180.0, float (np.round (ro.uniform (20, 350), 1))])) * float (ro.choice ([1, 1, -1]))
         arc = dict (k = 'a', n = n, radius = scale * 50.0, a1 = a1, a2 = a1 + sw, r = 1e-4 * seg_min, tag = None, open = True)
+        if ro.random () < 0.3 and not tapers:
+            # a circle that closes on itself only within the matching tolerance (its ends 0.2 .. 0.8 tolerances of the
+            # structure apart, or a full turn backwards): the two ends are joined like any two ends that close
+            n  = int (ro.integers (3, 25))
+            a1 = float (ro.choice ([0.0, 20.0, -75.5]))
+            gap = float (np.degrees (float (ro.uniform (0.2, 0.8)) * tol / (scale * 50.0)))
+            sw = float (ro.choice ([360.0 - gap, 360.0 - gap, -360.0, -(360.0 - gap)]))
+            arc = dict (k = 'a', n = n, radius = scale * 50.0, a1 = a1, a2 = a1 + sw, r = 1e-4 * seg_min, tag = None)
         tr  = [100 * scale, 0, 0]
     spec = dict ( f = 7.0, geo = geo, media = ([[0, 0, 0]] if gnd else None), src = [], loads = []
                 , ends = ends, wires = wires, tol = tol, arc = arc, tol_from_model = tol_from_model)
     if arc:
         spec ['geo'] = [{k: v for k, v in arc.items () if k != 'open'}] + geo
         spec ['tr']  = [['translate', 1.0, tr, None]]
+    elif not gnd and ro.random () < 0.15:
+        # the whole structure far from the origin (coordinates of a million shortest segments): what is joined and what
+        # is not depends on distances, not on where the structure stands
+        spec ['tr'] = [['translate', 1.0, [float (1e6 * seg_min), float (-2.5e6 * seg_min), 0.0], None]]
     if gnd and rng.random () < 0.15:
         # a curve standing on the ground plane: half circle with both ends grounded, or a helix rising from it
         if rng.random () < 0.5:
@@ -271,7 +283,7 @@ def expected (spec, m = None):
         nd = [p + off for p in georef.arc_nodes (a ['n'], a ['radius'], a ['a1'], a ['a2'])]
         pts += nd [1:-1]
         if not a.get ('open'):
-            pts.append (nd [0])
+            pts.append (nd [-1])        # the closing pulse sits on the second end (which meets the first within the tolerance)
             sizes.append (2)
     return pts, sizes, n_gnd, n_int
 # end def expected
